@@ -21,6 +21,8 @@ func init() {
 			checkConformance(c, "C10.R1", pd, PkgDurable, "Store", []string{"EventStore"})
 			checkReadNextOffset(c, p, PkgBus, "MemoryStore", "C10.R2")
 			checkReadNextOffset(c, ps, PkgSQLite, "SQLiteStore", "C10.R2")
+			checkNextOffsetIsLast(c, p, PkgBus, "MemoryStore", "C10.R2")
+			checkNextOffsetIsLast(c, ps, PkgSQLite, "SQLiteStore", "C10.R2")
 			checkReadNextOffset(c, pd, PkgDurable, "Store", "C10.R2")
 			checkEventOffsets(c, p, PkgBus, "MemoryStore", "C10.R2")
 			checkEventOffsets(c, ps, PkgSQLite, "SQLiteStore", "C10.R2")
@@ -49,6 +51,13 @@ func init() {
 			checkLimitUses(c, p, PkgBus, "MemoryStore", "C10.R6")
 			checkLimitUses(c, ps, PkgSQLite, "SQLiteStore", "C10.R6")
 			checkLimitUses(c, pd, PkgDurable, "Store", "C10.R6")
+			c.Rule("C10.R7", "store functions never turn an error they found into a nil error result")
+			checkErrorsPropagated(c, ps, PkgSQLite, "C10.R7")
+			checkErrorsPropagated(c, pd, PkgDurable, "C10.R7")
+			c.Floor("C10.R7", "error tests in the store packages", c.Stats["error_tests_"+PkgSQLite]+c.Stats["error_tests_"+PkgDurable], 20)
+			checkStoreDecodeTargets(c, ps, PkgSQLite, "C10.R6")
+			checkStoreDecodeTargets(c, pd, PkgDurable, "C10.R6")
+			c.Floor("C10.R6", "decode sites in the store packages", c.Stats["decode_sites"], 4)
 			c.Assume = append(c.Assume, "SQLite's AUTOINCREMENT and ORDER BY semantics", "the durable-streams protocol's offsets sort in append order", "database/sql stores and returns time.Time and []byte values faithfully (not decided; a probe showed Read failing on timestamps in unnamed fixed zones)")
 		},
 	})
@@ -73,11 +82,19 @@ func init() {
 			checkIterProtocol(c, ps, PkgSQLite, "SQLiteStore", "C11.R3")
 			checkBatchedStream(c, ps, "C11.R3")
 			checkMemoryStreamPolls(c, p, "C11.R3")
+			c.Rule("C11.R6", "store read functions never turn an error they found into a nil error result (a failed read is not an empty page)")
+			checkErrorsPropagated(c, p, PkgBus, "C11.R6")
+			checkErrorsPropagated(c, ps, PkgSQLite, "C11.R6")
+			checkErrorsPropagated(c, pd, PkgDurable, "C11.R6")
+			checkStoreDecodeTargets(c, ps, PkgSQLite, "C11.R3")
+			checkStoreDecodeTargets(c, pd, PkgDurable, "C11.R3")
 			checkMaterializerReplay(c, p, "C11.R2")
 			checkReplayReadOnly(c, p, R, "C11.R4")
 			checkReadNextOffset(c, pd, PkgDurable, "Store", "C11.R5")
 			checkReadNextOffset(c, p, PkgBus, "MemoryStore", "C11.R5")
 			checkReadNextOffset(c, ps, PkgSQLite, "SQLiteStore", "C11.R5")
+			checkNextOffsetIsLast(c, p, PkgBus, "MemoryStore", "C11.R5")
+			checkNextOffsetIsLast(c, ps, PkgSQLite, "SQLiteStore", "C11.R5")
 			c.Assume = append(c.Assume, "database/sql: Rows.Next returns false on error and Rows.Err reports it", "a cancelled context makes the driver fail Next (the batched SQLite stream polls per batch only)")
 		},
 	})
@@ -98,6 +115,9 @@ func init() {
 			checkJournal(c, ps, stmts, "C14.R2")
 			checkMigration(c, ps, stmts, "C14.R3")
 			checkNoFileDestruction(c, ps, "C14.R4")
+			checkStoreDecodeTargets(c, ps, PkgSQLite, "C14.R4")
+			c.Rule("C14.R5", "no SQLite store function reports success after a database call failed")
+			checkErrorsPropagated(c, ps, PkgSQLite, "C14.R5")
 			checkDSN(c, ps, "C14.R4")
 			c.Floor("C14.R4", "SQL statements", c.Stats["sql_statements"], 10)
 			c.Assume = append(c.Assume, "SQLite in WAL mode with synchronous=NORMAL keeps committed transactions across process death (not power loss)", "modernc.org/sqlite implements database/sql correctly")
